@@ -142,6 +142,14 @@ def join_blocks(
     module = block1.module
     assert ir and module and block2.section
 
+    if not block1.size:
+        # References to the start of block2 become references to the start of
+        # the (empty) block1, but references to the end of block2 need to
+        # keep referring to the end of the joined block.
+        for sym in tuple(cache.reference_cache.get_references(block2)):
+            if sym.at_end:
+                cache.reference_cache.set_referent(sym, block1, True)
+
     cache.reference_cache.retarget_references(
         block2, block1, bool(block1.size)
     )
